@@ -80,8 +80,11 @@ def run(ctx):
     # index rows (incl. contract address -> inscription id) are stamped with the block they belong to, so that a reorg
     # removes them together with the transaction they point at
     T.clause_stamps(R, F, CG)
+    # block gas used / log index / processing time start from zero in every block
+    import enginerules as ER
+    ER.clause_block_info_reset(R, F, owners=("clear_caches", "finalise_block"))
     # 2. finalise order
-    fin = _engine_closure_calling(F, "finalise_block", "set_block_hash")
+    fin = ER.operation_bodies_calling(F, "finalise_block", "set_block_hash")
     R.floor("finalise_closure", len(fin), 1)
     if fin:
         f = fin[0]
